@@ -63,6 +63,10 @@ func def(p map[string]int, k string, d int) int {
 
 var registry = []*Workload{
 	{
+		Name: "synthetic-3d-workgroup", Outputs: []string{"out"}, Integer: true,
+		New: func(d *driver.Driver, a arch.Type, p map[string]int) benchmarks.Benchmark { return newWorkItemIDs3D(d, p) },
+	},
+	{
 		Name: "synthetic-scalar-reupload", Outputs: []string{"out"}, Integer: true,
 		New: func(d *driver.Driver, a arch.Type, p map[string]int) benchmarks.Benchmark { return newScalarReupload(d, p) },
 	},
